@@ -116,3 +116,53 @@ impl Ent for yui::poly::Poly<'H', i64> {
     fn rnd_unit(rng: &mut StdRng) -> Self { yui::poly::Poly::from_const(if rng.gen_bool(0.5) { 1 } else { -1 }) }
     fn of_int(x: i64) -> Self { yui::poly::Poly::from_const(x) }
 }
+
+// ---- further entry types for the dense linear algebra properties (C07, C09, C10)
+impl Ent for yui::GaussInt<BigInt> {
+    fn ring() -> Value { json!({"k":"G"}) }
+    fn tname() -> String { "GaussInt<BigInt>".into() }
+    fn rnd(rng: &mut StdRng, mag: i64) -> Self { yui::GaussInt::new(BigInt::from(rng.gen_range(-mag..=mag)), if rng.gen_bool(0.5) { BigInt::from(0) } else { BigInt::from(rng.gen_range(-mag..=mag)) }) }
+    fn rnd_unit(rng: &mut StdRng) -> Self { let (o, z) = (BigInt::from(1), BigInt::from(0)); [yui::GaussInt::new(o.clone(), z.clone()), yui::GaussInt::new(-o.clone(), z.clone()), yui::GaussInt::new(z.clone(), o.clone()), yui::GaussInt::new(z, -o)][rng.gen_range(0..4)].clone() }
+    fn of_int(x: i64) -> Self { yui::GaussInt::new(BigInt::from(x), BigInt::from(0)) }
+}
+impl Ent for yui::EisenInt<i64> {
+    fn ring() -> Value { json!({"k":"E"}) }
+    fn tname() -> String { "EisenInt<i64>".into() }
+    fn rnd(rng: &mut StdRng, mag: i64) -> Self { yui::EisenInt::new(rng.gen_range(-mag..=mag), if rng.gen_bool(0.5) { 0 } else { rng.gen_range(-mag..=mag) }) }
+    fn rnd_unit(rng: &mut StdRng) -> Self { [yui::EisenInt::new(1, 0), yui::EisenInt::new(-1, 0), yui::EisenInt::new(0, 1), yui::EisenInt::new(0, -1), yui::EisenInt::new(1, -1), yui::EisenInt::new(-1, 1)][rng.gen_range(0..6)].clone() }
+    fn of_int(x: i64) -> Self { yui::EisenInt::new(x, 0) }
+}
+impl Ent for yui::EisenInt<BigInt> {
+    fn ring() -> Value { json!({"k":"E"}) }
+    fn tname() -> String { "EisenInt<BigInt>".into() }
+    fn rnd(rng: &mut StdRng, mag: i64) -> Self { yui::EisenInt::new(BigInt::from(rng.gen_range(-mag..=mag)), if rng.gen_bool(0.5) { BigInt::from(0) } else { BigInt::from(rng.gen_range(-mag..=mag)) }) }
+    fn rnd_unit(rng: &mut StdRng) -> Self { let b = |x: i64| BigInt::from(x); [yui::EisenInt::new(b(1), b(0)), yui::EisenInt::new(b(-1), b(0)), yui::EisenInt::new(b(0), b(1)), yui::EisenInt::new(b(0), b(-1)), yui::EisenInt::new(b(1), b(-1)), yui::EisenInt::new(b(-1), b(1))][rng.gen_range(0..6)].clone() }
+    fn of_int(x: i64) -> Self { yui::EisenInt::new(BigInt::from(x), BigInt::from(0)) }
+}
+macro_rules! impl_ent_poly { ($c:ty, $base:expr, $name:expr) => {
+    impl Ent for yui::poly::Poly<'x', $c> {
+        fn ring() -> Value { json!({"k":"P","b":$base,"nv":0}) }
+        fn tname() -> String { format!("Poly<x,{}>", $name) }
+        fn ent(&self) -> Value {
+            use yui::poly::Mono;
+            let mut ts: Vec<(usize, Value)> = self.iter().map(|(x, c)| (x.deg(), <$c as Ent>::ent(c))).collect(); ts.sort_by_key(|t| t.0);
+            json!(ts.into_iter().map(|(e, c)| json!({"e": e, "c": c})).collect::<Vec<_>>())
+        }
+        fn rnd(rng: &mut StdRng, mag: i64) -> Self {
+            use yui::poly::Var;
+            let n = rng.gen_range(0..3);
+            yui::poly::Poly::from_iter((0..n).map(|_| (Var::from(rng.gen_range(0..3usize)), <$c as Ent>::rnd(rng, mag))))
+        }
+        fn rnd_unit(rng: &mut StdRng) -> Self { yui::poly::Poly::from_const(<$c as Ent>::rnd_unit(rng)) }
+        fn of_int(x: i64) -> Self { yui::poly::Poly::from_const(<$c as Ent>::of_int(x)) }
+    }
+}}
+impl_ent_poly!(FF<3>, json!({"k":"F","p":3}), "FF<3>");
+impl_ent_poly!(Ratio<i64>, json!({"k":"Q"}), "Ratio<i64>");
+
+/// Run `f` on a helper thread and give up after `secs` seconds (the helper is left behind; the process exits at the end).
+pub fn with_deadline<T: Send + 'static>(secs: u64, f: impl FnOnce() -> T + Send + 'static) -> Option<Result<T, String>> {
+    let (tx, rx) = std::sync::mpsc::channel();
+    std::thread::Builder::new().stack_size(64 << 20).spawn(move || { let r = crate::util::guarded(f); let _ = tx.send(r); }).unwrap();
+    rx.recv_timeout(std::time::Duration::from_secs(secs)).ok()
+}
